@@ -49,8 +49,9 @@ TStep ==
            en == Enabled(g, ln.st)
            g2 == IF en THEN Apply(g, ln.st) ELSE g
            bad == (IF ~ln.loadok THEN {"C12.Load"} ELSE {})
+                  \* meta2: the metadata leaves as the two APPLICATIONS show them (not as the saved document holds them)
                   \cup (IF ln.loadok /\ (Core(ln.reload) # Core(ln.orig) \/ ln.reload.metajson # ln.orig.metajson
-                                         \/ ln.reload.unknown # ln.orig.unknown)
+                                         \/ ln.reload.meta2 # ln.orig.meta2 \/ ln.reload.unknown # ln.orig.unknown)
                         THEN {"C12.Reload"} ELSE {})
                   \cup (IF ln.loadok /\ ln.reload.arts # ln.orig.arts THEN {"C12.Artifacts"} ELSE {})
                   \cup (IF ln.loadok /\ ln.h1 # ln.h2 THEN {"C12.Resave"} ELSE {})
